@@ -98,11 +98,11 @@ def model_step(chk, prop, tier):
                                   "or the design breaks the property)" % (m["cfg"], res.violation))
 
 
-def judge(chk, results, module, cfg, sig_prefix, sigfn=None, shards=None, key="events"):
+def judge(chk, results, module, cfg, sig_prefix, sigfn=None, shards=None, key="events", max_rejects=5):
     """TLC validates every run's event list against the monitor; rejected runs are re-executed once and
     re-validated (determinism guard) before they count as violations."""
     execs = [r[key] for r in results]
-    out = vcheck.validate_executions(module, cfg, execs, shards=shards)
+    out = vcheck.validate_executions(module, cfg, execs, shards=shards, max_rejects=max_rejects)
     chk.cov["traces_validated_against_impl"] = chk.cov.get("traces_validated_against_impl", 0) + out["validated"]
     chk.cov["trace_events"] = chk.cov.get("trace_events", 0) + out["events"]
     if out["broken"]:
